@@ -1,5 +1,5 @@
 // auto-generated: "lalrpop 0.23.1"
-// sha3: 33a99d4d4c2c08a346f136cd114e2b52fc6fda8ef1713316172e7740c6761d13
+// sha3: ff33613034cde8b13356181da595d1844254cfabc6e58a5f649342ab58fe6d94
 #[allow(unused_extern_crates)]
 extern crate lalrpop_util as __lalrpop_util;
 #[allow(unused_imports)]
@@ -641,7 +641,8 @@ fn __action1<
     (_, __0, _): (usize, &'input str, usize),
 ) -> String
 {
-    "[;];\"".to_string()
+    { let (x, y) = (r#"\"#.to_string(), ['\u{7d}'.to_string(), { /* } , ; */ let v = vec![(1, 2), (3, 4)]; // }
+ v[1].0.to_string() }].concat()); x + &y }
 }
 
 #[allow(unused_variables)]
@@ -653,8 +654,7 @@ fn __action2<
     (_, __0, _): (usize, &'input str, usize),
 ) -> String
 {
-    { /* } , ; */ let v = vec![(1, 2), (3, 4)]; // }
- v[1].0.to_string() }
+    { fn f<'a>(x: &'a str) -> &'a str { x } f("q").to_string() }
 }
 
 #[allow(unused_variables)]
@@ -678,7 +678,7 @@ fn __action4<
     (_, __0, _): (usize, &'input str, usize),
 ) -> String
 {
-    '{'.to_string()
+    ';'.to_string()
 }
 
 #[allow(unused_variables)]
@@ -702,7 +702,7 @@ fn __action6<
     (_, __0, _): (usize, &'input str, usize),
 ) -> String
 {
-    'é'.to_string()
+    '\\'.to_string()
 }
 
 #[allow(unused_variables)]
@@ -714,7 +714,7 @@ fn __action7<
     (_, __0, _): (usize, &'input str, usize),
 ) -> String
 {
-    '\''.to_string()
+    '('.to_string()
 }
 
 #[allow(unused_variables)]
@@ -726,7 +726,7 @@ fn __action8<
     (_, __0, _): (usize, &'input str, usize),
 ) -> String
 {
-    r"\(".to_string()
+    { let r = 7; let t = (r, 1); /* /* nested , */ ; */ (t.0 / t.1).to_string() }
 }
 
 #[allow(clippy::type_complexity, dead_code)]
